@@ -13,13 +13,16 @@ def register(PROPS):
         'technique': 'bounded exhaustive enumeration of limit values x spellings x event shapes pushed through the unmodified functions of '
                      'all three programs in one harness (echsq.c add_fd/massage/icalify -> echsd.c feed_cmd/cmd_ical/_inject_task1/resched/'
                      'task_cb/run_task/vtodoify -> echsx.c main/echsx/set_timeout, each source file included into a TU of its own), '
-                     'alarm() and time() interposed in the echsx TU; plus real-time runs of the echsx binary (four in the quick tier, nine in the thorough tier, three of them request streams with two or three requests)',
+                     'alarm() and time() interposed in the echsx TU; plus real-time runs of the echsx binary (ten in the quick tier, fifteen in the thorough tier, eight of them request streams with two or three requests, some of which echsx has to refuse)',
         'claim': 'For every limit in the bound, written as DTEND, as DURATION in every legal RFC 5545 spelling (with and without a '
                  'leading +) on a single and on a recurring event, the number of seconds echsx arms for the run equals the limit; for '
                  'execution requests with DUE, echsx arms due - now for three positions of the clock and refuses a DUE in the past '
                  'with the documented journal entry without starting the job (DUE equal to now: refused or killed at once, never started without a timer).  Limits given as local times of two zones (DTSTART and DTEND with TZID, 3-4 events per file, every pattern of Europe/Berlin and America/New_York, five limits) must come out of echsq with the same span for every event; five limits whose DTSTART and DTEND are local times on the two sides of a DST switch of their zone (Berlin and New York, spring and autumn 2031, plus a control) must come out as the real time between them.  The limit survives the chunking of each of the four readers of the chain: with the text a reader gets laid out so that the line feed of the limit line (DURATION, DTEND, DUE) falls on every offset in a window around the chunk boundary of that reader (echsq 32768 bytes per read of the user file, echsd 4096 per recv of the socket, echsd 65536 per read of a queue file it reloads, echsx 4096 per read of its stdin; LF and, where the text is the user\'s, CRLF line ends), the daemon holds every event of the text and echsx arms exactly the stated limit for the event on the boundary.  Real runs: jobs outliving a 1 s / 2 s limit die '
                  'within [limit, limit + 4 s] with the signal in the journal, a job finishing earlier is unaffected; this holds for every request of a '
-                 'stream of two or three requests handled by one echsx process (what one request leaves behind - handler, pending alarm - meets the next).  '
+                 'stream of two or three requests handled by one echsx process (what one request leaves behind - handler, pending alarm, signal mask, clock reading - meets the next): '
+                 'a job outliving its 1 s limit (or its DUE) is killed also when the request before it was refused (DUE an hour past, unknown user) and its shell is one that keeps the signal mask it inherits (bash), '
+                 'and also when echsx itself was started with SIGALRM and SIGXCPU blocked; of three DUE requests in one stream each is measured against the clock at the moment its turn comes '
+                 '(the one whose DUE passed while the request before it ran is refused, the one whose turn comes 2 s before its DUE has a timer of DUE - now, within a second, and is dead by DUE + 4 s, the one finishing long before its DUE is unaffected), one journal entry per request, in order.  '
                  'The termination record survives the company of other executors of the same user: with the journal handed to every echsx the way echsd does '
                  '(a descriptor of its own, no O_APPEND, at the end as of start time), a run killed at its limit next to a run that started earlier or later, '
                  'next to a not-run report, next to a second run killed by the same limit, and queueing for the journal lock while another writer appends, '
@@ -36,11 +39,11 @@ def register(PROPS):
             'quick': 'limits 1..180 s every second + 40 values from 5 min to 4 weeks (incl. 86399/86400/86401 s, 2^31 ms +- 1 s) x '
                      '{DTEND, DURATION as PTnS, PTnM, PTnH, PnD, PnW, PnDTnHnMnS with zeros, PTnMnS, PTnHnM, normalised} x {no sign, +} x '
                      '{single event, FREQ=DAILY;COUNT=3 (first two runs)}: 3540 chain cases; DUE = now + each of the 220 limits and DUE = now - '
-                     '{1 s .. 1 year} for now in {2030-06-15T12:00:00Z, 2031-01-15T08:30:00Z, 2032-02-28T23:59:30Z}: 681 cases; 4 real-time runs (two single requests, two streams); 6 placements of 1-2 real executors (one at least killed at its limit) on one journal; chunk alignment: limits {7 s, 3661 s} x line feed of the limit line at boundary -3..+3 for 5 readers/texts '
+                     '{1 s .. 1 year} for now in {2030-06-15T12:00:00Z, 2031-01-15T08:30:00Z, 2032-02-28T23:59:30Z}: 681 cases; 10 real-time runs (two single requests, two streams; refused (overdue DUE / unknown user) then killed under bash x {DURATION, DUE}; DUE early + DUE killed + DUE overdue at its turn; DUE early + DUE overdue + DURATION killed under bash; single request with SIGALRM+SIGXCPU blocked at start); 6 placements of 1-2 real executors (one at least killed at its limit) on one journal; chunk alignment: limits {7 s, 3661 s} x line feed of the limit line at boundary -3..+3 for 5 readers/texts '
                      '(user file -> echsq 32768: DURATION/DTEND x LF/CRLF; echsq text -> echsd in 4096-byte pieces: DURATION/DTEND; queue file written by chkpnt1 -> _inject_file 65536; stream of echsd-written requests -> echsx 4096: DURATION/DTEND; '
                      'single request with recipients before the limit -> echsx 4096: DUE/DURATION x LF/CRLF): 182 cases',
             'thorough': 'as quick with limits 1..1800 s every second (26k chain cases, 5.5k DUE cases) + 9 real-time runs '
-                        '(sleep 8 under 1 s and 2 s given as DURATION and DTEND; sleep 0 under 2 s; streams killed+killed, killed+unharmed+killed, unharmed+killed+killed); the 6 shared-journal placements; chunk alignment as quick with the window -16..+16 (858 cases)',
+                        '(sleep 8 under 1 s and 2 s given as DURATION and DTEND; sleep 0 under 2 s; streams killed+killed, killed+unharmed+killed, unharmed+killed+killed) + the 6 streams with refused / DUE requests of the quick tier; the 6 shared-journal placements; chunk alignment as quick with the window -16..+16 (858 cases)',
         },
         'targets': [os.path.join(_X, x) for x in ('echsx_shim.so', 'c14_chain')],
         'drivers': [
@@ -60,6 +63,8 @@ def register(PROPS):
             'chunk alignment: the text in front of the limit line is made of further events (user file, echsq text, queue file), further requests of the same stream or ATTENDEE lines (single request), '
             'each line shorter than the parser\'s 1 KiB line limit, plus a padded command (SUMMARY:true xxx...); the queue file and the request stream are the texts the real chkpnt1() / vtodoify() write for the one event, replicated by the driver under other UIDs; '
             'the socket is modelled as delivering echsq\'s text in full pieces of 4096 bytes (feed_cmd + cmd_ical per piece, then the empty read and shut_cmd, as sock_data_cb does); what follows the limit line is another property line (LOCATION or X-ECHS-UMASK) or, in echsq\'s and chkpnt1\'s texts, END:VEVENT',
-            'real-time part: the limit may be undercut by the time between arming and spawning (tolerance 0.1 s) and overrun by up to 4 s (shared machine)',
+            'real-time part: a kill is late when the journal shows the job alive more than 4 s past its limit (shared machine); it is early when echsx armed fewer seconds than the limit (alarm() calls logged by the preloaded shim; the run time in the journal is counted from the spawn, which on a busy machine has been seen more than a second after the arming, so it is consulted only when the alarm() calls are not on record: tolerance 0.1 s)',
+            'request streams with DUE: DUE times are laid relative to T0, the second in which the driver starts echsx (20 ms into it); the moment a request\'s turn comes is bracketed by the journal itself, whole seconds: not before COMPLETED of the entry before it (for the first: T0), not after its own DTSTART (COMPLETED of a refusal); a refusal is wrong if journalled before DUE, a start is wrong if the request before it ended after DUE, the timer must be DUE - now for a now in that bracket (one more second of tolerance); the DUE requests themselves are echsd\'s request for the same job with the DUE line put where the DURATION line would be, the refused ones likewise (DUE an hour past / X-ECHS-SETUID naming no user); a request without a command is not used as the refused one (echsx -v ends with a segmentation fault on such a request: jlog_task() takes strlen() of the missing command)',
+            'inherited mask: echsx exec\'d by a parent that has SIGALRM and SIGXCPU blocked must still enforce the limit (echsd itself spawns echsx with an empty mask)',
         ],
     }
